@@ -56,6 +56,11 @@ def entries() -> t.List[t.Tuple[str, dict, t.List[dict]]]:
                                     'A': dict(P(('p', 'in', 'I')), attempts=2, delay=1, use_default=True, exceptions=['E1']),
                                     'O': P(('a', 'in', 'A'))}, 'input': 'I', 'output': 'O'},
         [{'A': ['raise:E1', 'raise:E1']}, {'A': ['raise:E2']}, {'A': ['raise:E1', 'ok']}])
+    # attempts = 0 / delay = 0 / exceptions = () are falsy: the policy falls back to its defaults (1 attempt, no delay, Exception)
+    add('retry_zero', {'nodes': {'I': P(('x', 'plain')), 'A': dict(P(('p', 'in', 'I')), attempts=0, delay=0, exceptions=[]),
+                                 'B': dict(P(('p', 'in', 'I')), attempts=0, use_default=True), 'O': P(('a', 'in', 'A'), ('b', 'in', 'B'))},
+                       'input': 'I', 'output': 'O'},
+        [{'A': ['raise:E1', 'ok']}, {'B': ['raise:E1', 'ok']}, {'A': ['raise:E2'], 'B': ['raise:E1']}])
     # --- switch shapes (tests/dag/switch_case)
     add('switch_basic', {'nodes': {'I': P(('x', 'plain')), 'S': P(('p', 'in', 'I')), 'A': P(('p', 'in', 'I')),
                                    'B': P(('p', 'in', 'I')),
@@ -200,6 +205,13 @@ def entries() -> t.List[t.Tuple[str, dict, t.List[dict]]]:
                                       'G': P(('o', 'oneof', ['CA', 'F'])),
                                       'O': P(('c', 'switch', {'switch': 'S', 'cases': [['a', 'PL'], ['b', 'G']], 'name': 'swm'}))},
                             'input': 'I', 'output': 'O'})
+    # --- max_iterations = 0
+    add('rec_max0', {'nodes': {'I': P(('x', 'plain')), 'S': P(('p', 'in', 'I')), 'D': P(('p', 'in', 'S')),
+                               'O': P(('r', 'rec', {'start': 'S', 'dest': 'D', 'max': 0}))}, 'input': 'I', 'output': 'O'},
+        [{'D': ['next', 'ok']}, {'D': ['next0']}])
+    add('rec_max0_default', {'nodes': {'I': P(('x', 'plain')), 'S': P(('p', 'in', 'I')), 'D': dict(P(('p', 'in', 'S')), use_default=True),
+                                       'O': P(('r', 'rec', {'start': 'S', 'dest': 'D', 'max': 0}))}, 'input': 'I', 'output': 'O'},
+        [{'D': ['next', 'ok']}, {'D': ['next0']}])
     # --- keyword-only parameters
     add('kwonly_rhombus', {'nodes': {'I': dict(P(('x', 'plain')), kwonly=True), 'A': dict(P(('p', 'in', 'I')), kwonly=True),
                                      'B': dict(P(('p', 'in', 'I')), kwonly=True, attempts=2), 'C': dict(P(('p', 'in', 'I')), kwonly=True),
